@@ -82,6 +82,7 @@ def check_chunk(args):
             open(p, "w").write(text)
         root = os.path.join(base, "root")
         for ci, case in enumerate(cases):
+            core.tick(case, 300)
             db = []
             for e in case["ents"]:
                 ent = {"file": spelled(base, e["file"])}
